@@ -255,6 +255,10 @@ def gen(ctx):
             place(["hmac %d %d %d %d" % (300 + kl, kl, 700 + ml + i, ml)],
                   1 + blocks(ml) + 2 + (blocks(kl) if kl > 64 else 0))
             stats["hmac"] += 1
+    # the result array inside the message buffer (in-place MAC, x = HMAC(k, x)): every key-length class
+    for kl, ml, mode in ((10, 32, 1), (64, 40, 2), (65, 32, 1), (100, 64, 1), (150, 100, 2), (200, 33, 2)):
+        place(["hmac %d %d %d %d %d" % (300 + kl, kl, 900 + ml, ml, mode)], 3 + blocks(ml) + (blocks(kl) if kl > 64 else 0))
+        stats["hmac"] += 1
     if not quick:
         for kl, ml in ((300, 1000), (1000, 10), (64, 2000), (129, 129)):
             place(["hmac %d %d %d %d" % (300 + kl, kl, 700 + ml, ml)], 3 + blocks(ml) + blocks(kl))
